@@ -260,6 +260,19 @@ func OpLine(seq ansi.Sequence) string {
 		return "osc " + hx.Hex(p) + " " + b01(B64ok(p))
 	case ansi.APC:
 		return "apc"
+	case ansi.DCS:
+		d := "-"
+		if len(s.Data) > 0 {
+			d = hx.Hex(string(s.Data))
+		}
+		ni, np := len(s.Intermediate), len(s.Parameters)
+		if ni > 8 {
+			ni = 8
+		}
+		if np > 8 {
+			np = 8
+		}
+		return "dcs " + hx.Hex(string(s.Final)) + " " + strconv.Itoa(ni) + " " + strconv.Itoa(np) + " " + d
 	default:
 		return "dcs"
 	}
@@ -305,6 +318,27 @@ func ParseOp(f []string) (ansi.Sequence, bool) {
 		return ansi.APC{Data: "x"}, true
 	case len(f) == 1 && f[0] == "dcs":
 		return ansi.SS3('x'), true // no arm in update(): nothing happens
+	case len(f) == 5 && f[0] == "dcs":
+		// dcs <final hex> <#intermediates> <#parameters> <data hex>: the REAL DCS branch of update()
+		fin, ok := unhex(f[1])
+		ni, e1 := strconv.Atoi(f[2])
+		np, e2 := strconv.Atoi(f[3])
+		data, ok2 := unhex(f[4])
+		if f[4] == "-" {
+			data, ok2 = "", true
+		}
+		r := []rune(fin)
+		if !ok || !ok2 || e1 != nil || e2 != nil || len(r) != 1 || ni < 0 || np < 0 || ni > 8 || np > 8 {
+			return nil, false
+		}
+		d := ansi.DCS{Final: r[0], Data: []rune(data)}
+		for i := 0; i < ni; i++ {
+			d.Intermediate = append(d.Intermediate, '$')
+		}
+		for i := 0; i < np; i++ {
+			d.Parameters = append(d.Parameters, i)
+		}
+		return d, true
 	}
 	return nil, false
 }
@@ -374,6 +408,11 @@ func (t *Term) Feed(seq ansi.Sequence) string {
 		return "dead"
 	}
 	n := 0
+	g0 := 0
+	dcs, isDcs := seq.(ansi.DCS)
+	if isDcs {
+		g0 = t.VT.VerifGraphicsLen()
+	}
 	r := t.guarded(func() { n = len(t.VT.VerifFeed(seq)) })
 	if r != "" {
 		t.Dead = true // state is undefined (hang: the goroutine still owns it)
@@ -382,7 +421,12 @@ func (t *Term) Feed(seq ansi.Sequence) string {
 		}
 		return r
 	}
-	return "ev=" + strconv.Itoa(n) + " " + Snapshot(t.VT.VerifSnapshot())
+	res := "ev=" + strconv.Itoa(n) + " " + Snapshot(t.VT.VerifSnapshot())
+	if isDcs {
+		// what the size guard says and whether the external decoder produced an image
+		res += " tl=" + b01(term.VerifSixelTooLarge(dcs.Data)) + " gfx=" + strconv.Itoa(t.VT.VerifGraphicsLen()-g0)
+	}
+	return res
 }
 
 func (t *Term) Resize(w, h int) string {
